@@ -79,6 +79,8 @@ Section Cert.
 Variable env : env.                                   (* typedefs of the certification interface *)
 Variable fields : nat -> list (str * vtype).          (* input fields of step k *)
 Variable canon : nat -> bytes -> json.                (* canonical parameters of step k for a client id *)
+Variable next : nat -> nat.                           (* the step a client is moved to when step k is consumed *)
+Variable keeps : bool.                                (* a call to a step other than the expected one leaves the stored step alone *)
 
 Definition s_client_id : bytes := [99;108;105;101;110;116;95;105;100].
 
@@ -117,9 +119,9 @@ Definition cert_call (st : cstate) (k : nat) (q : request) : cstate * coutcome :
           | Some expected =>
               if Nat.eqb expected k then
                 (* the step is consumed before the call is checked *)
-                let st' := cset st c (S k) in
+                let st' := cset st c (next k) in
                 if mode_ok (mode_of k) q && matches k c j then (st', CSuccess) else (st', CCertError)
-              else (st, CClientIdError)
+              else ((if keeps then st else cset st c (next k)), CClientIdError)
           | None => (st, CClientIdError)
           end
       | _, _ => (st, CInvalidParameter)
@@ -186,17 +188,85 @@ Theorem other_clients_unaffected st k q c' :
 Proof.
   intros H. unfold cert_call. destruct (r_params q) as [j|] eqn:P; [|reflexivity].
   destruct (read_params k j); [|reflexivity]. destruct (client_of j) as [c|] eqn:C; [|reflexivity].
-  destruct (cget st c) as [e|]; [|reflexivity]. destruct (Nat.eqb e k); [|reflexivity].
+  destruct (cget st c) as [e|]; [|reflexivity].
   assert (Hne : c <> c') by (apply (H j c); auto).
-  destruct (mode_ok (mode_of k) q && matches k c j); simpl; apply cget_cset_other; exact Hne.
+  destruct (Nat.eqb e k).
+  - destruct (mode_ok (mode_of k) q && matches k c j); simpl; apply cget_cset_other; exact Hne.
+  - destruct keeps; simpl; [reflexivity|apply cget_cset_other; exact Hne].
 Qed.
 
 (* a canonical call at the expected step succeeds and advances that client *)
 Theorem canonical_call_succeeds st k q j c : r_params q = Some j -> client_of j = Some c ->
   read_params k j <> None -> cget st c = Some k -> mode_ok (mode_of k) q = true -> matches k c j = true ->
-  snd (cert_call st k q) = CSuccess /\ cget (fst (cert_call st k q)) c = Some (S k).
+  snd (cert_call st k q) = CSuccess /\ cget (fst (cert_call st k q)) c = Some (next k).
 Proof.
   intros P C R G M Mt. unfold cert_call. rewrite P, C, G, Nat.eqb_refl, M, Mt.
   destruct (read_params k j); [|congruence]. simpl. split; [reflexivity|apply cget_cset_same].
 Qed.
+
+(* a call that is rejected as out of order (or as malformed) does not move anybody: the next call is judged against
+   the same expected step *)
+Theorem rejected_call_keeps_state st k q : keeps = true ->
+  snd (cert_call st k q) = CClientIdError \/ snd (cert_call st k q) = CInvalidParameter ->
+  fst (cert_call st k q) = st.
+Proof.
+  intros K. unfold cert_call. destruct (r_params q) as [j|]; [|reflexivity].
+  destruct (read_params k j); [|reflexivity]. destruct (client_of j) as [c|]; [|reflexivity].
+  destruct (cget st c) as [e|]; [|reflexivity]. destruct (Nat.eqb e k).
+  - destruct (mode_ok (mode_of k) q && matches k c j); simpl; intros [H|H]; discriminate.
+  - rewrite K. reflexivity.
+Qed.
+
+(* ---- histories: any sequence of calls of one client ---- *)
+Fixpoint run (st : cstate) (calls : list (nat * request)) : cstate * list (nat * coutcome) :=
+  match calls with
+  | [] => (st, [])
+  | (k, q) :: r => let '(st1, o) := cert_call st k q in
+                   let '(st2, os) := run st1 r in (st2, (k, o) :: os)
+  end.
+
+Definition consumed (o : coutcome) : bool := match o with CSuccess | CCertError => true | _ => false end.
+Definition consumed_steps (os : list (nat * coutcome)) : list nat :=
+  map fst (List.filter (fun ko => consumed (snd ko)) os).
+
+(* [chain e l]: l is e, next e, next (next e), ... *)
+Fixpoint chain (e : nat) (l : list nat) : Prop :=
+  match l with [] => True | k :: r => k = e /\ chain (next e) r end.
+
+Definition by_client (c : bytes) (q : request) : Prop := forall j, r_params q = Some j -> client_of j = Some c.
+
+(* whatever one client sends, in whatever order: the steps that are answered with a success or certification-error
+   reply (the ones the service consumes) are exactly the canonical chain from the client's expected step; in
+   particular a success reply for step k is only ever given when every earlier step of the chain was consumed before *)
+Theorem consumed_steps_in_canonical_order c : keeps = true -> forall calls st e,
+  cget st c = Some e -> Forall (fun kq => by_client c (snd kq)) calls ->
+  chain e (consumed_steps (snd (run st calls))).
+Proof.
+  intros K. induction calls as [|[k q] r IH]; intros st e G F; cbn [run]; [exact I|].
+  inversion F as [|? ? Hq Fr]; subst. cbn [snd] in Hq.
+  destruct (cert_call st k q) as [st1 o] eqn:C.
+  assert (E : snd (let '(st2, os) := run st1 r in (st2, (k, o) :: os)) = (k, o) :: snd (run st1 r))
+    by (destruct (run st1 r); reflexivity).
+  rewrite E. clear E. unfold consumed_steps. cbn [List.filter snd].
+  revert C. unfold cert_call. destruct (r_params q) as [j|] eqn:P.
+  2:{ intros C; inversion C; subst. cbn [consumed]. apply IH; auto. }
+  destruct (read_params k j).
+  2:{ intros C; inversion C; subst. cbn [consumed]. apply IH; auto. }
+  destruct (client_of j) as [c0|] eqn:Cl.
+  2:{ intros C; inversion C; subst. cbn [consumed]. apply IH; auto. }
+  assert (c0 = c) by (specialize (Hq j P); congruence). subst c0.
+  rewrite G. destruct (Nat.eqb_spec e k) as [->|Hne].
+  - destruct (mode_ok (mode_of k) q && matches k c j); intros C; inversion C; subst; cbn [consumed map fst];
+      (split; [reflexivity|]); apply IH; auto; apply cget_cset_same.
+  - rewrite K. intros C; inversion C; subst. cbn [consumed]. apply IH; auto.
+Qed.
 End Cert.
+
+(* the transition table as read from the source: position in the table = step number - 1 *)
+Fixpoint index_of (n : bytes) (l : list bytes) : option nat :=
+  match l with [] => None | x :: r => if beq_bytes n x then Some O else option_map S (index_of n r) end.
+Definition next_of (tbl : list (bytes * bytes)) (k : nat) : nat :=
+  match nth_error tbl (k - 1) with
+  | Some (_, nx) => match index_of nx (map fst tbl) with Some i => S i | None => O end
+  | None => O
+  end.
